@@ -1,6 +1,7 @@
 package commitlog
 
 import (
+	"time"
 	"io"
 	"strings"
 )
@@ -234,7 +235,18 @@ func VerifC08WithRetention() {
 	lim := vNondetInt64("limit.messages")
 	vAssume(lim >= 1)
 	vAssume(lim <= int64(n)+1)
-	opts.MaxLogMessages = lim
+	byAge := vChoose(2) == 1
+	if byAge {
+		// an age limit instead: no message is old enough to expire (every
+		// timestamp is at or after the cut-off), so retention must remove
+		// nothing, in the first Clean and in every later one - also from
+		// segments that compaction has rewritten
+		opts.MaxLogAge = time.Hour
+		computeTTL = func(time.Duration) int64 { return 1 }
+		vCover("age-limit")
+	} else {
+		opts.MaxLogMessages = lim
+	}
 	l, err := New(opts)
 	vAssert(err == nil, "New succeeds")
 	var model []vStored
@@ -279,6 +291,16 @@ func VerifC08WithRetention() {
 	if first > 0 {
 		vCover("retention-dropped")
 	}
+	if byAge {
+		// no message has expired: the age limit removes nothing, so exactly the
+		// compaction survivors of the whole log remain (a leading segment may
+		// still disappear because compaction emptied it)
+		for i := range keep {
+			if keep[i] {
+				vAssert(int64(i) >= first, "no message has expired: the age limit removes nothing")
+			}
+		}
+	}
 	// (cover label) retention removed at least the first segment and compaction
 	// had something to remove beyond it
 	dropped := false
@@ -304,6 +326,10 @@ func VerifC08WithRetention() {
 	vAssert(l.Clean() == nil, "second Clean succeeds")
 	after2 := l.(*commitLog).Segments()
 	vAssert(after2[0].BaseOffset == first, "a repeated Clean removes nothing more")
+	vCheckSurvivors(l, model, keep, false)
+	// a third Clean sees segments that were written by compaction only
+	vAssert(l.Clean() == nil, "third Clean succeeds")
+	vAssert(l.(*commitLog).Segments()[0].BaseOffset == first, "a repeated Clean removes nothing more")
 	vCheckSurvivors(l, model, keep, false)
 	vCover("done")
 }
